@@ -31,6 +31,16 @@ def run(ctx):
     if not bug.violation:
         raise core.Broken("the seeded-bug Netlink model (load/store counter) was not rejected by TLC: vacuous invariants")
 
+    proved = 0
+    if not q:
+        # unbounded number of Sends: inductive invariant discharged by Apalache (3 obligations)
+        for args in (["--cinit=CInit", "--init=Init", "--inv=IndInv", "--length=0"],
+                     ["--cinit=CInit", "--init=IndInit", "--inv=IndInv", "--length=1"],
+                     ["--cinit=CInit", "--init=IndInit", "--inv=Safety", "--length=0"]):
+            core.apalache_check(ctx, "client", "NetlinkInd", args)
+            proved += 1
+        ctx.log("Apalache discharged the inductive invariant of the sequence counter (Init => IndInv, IndInv /\\ Next => IndInv', IndInv => Safety)")
+
     racelog = ctx.path("nl", "race")
     env = {"GORACE": "log_path=%s halt_on_error=0 exitcode=0" % racelog}
     tp = ctx.path("nl", "trace.ndjson")
@@ -66,6 +76,7 @@ def run(ctx):
         "distinct_nontrivial": st.get("send_cases", 0) + st.get("user_datagrams", 0),
         "rule": "distinct (type, flags, pid, payload) requests echoed by the kernel plus distinct datagrams delivered from a non-kernel sender",
         "real_transport": st, "skipped": summ["skipped"][:10], "records_judged_by_tlc": nrec, "race_reports": len(races),
+        "apalache_obligations_discharged": proved,
     }
     assumptions = [
         "rtnetlink answers a request whose type is above RTM_MAX with NLMSG_ERROR(EOPNOTSUPP) that echoes the request verbatim, and only acknowledges control types; no valid rtnetlink command is ever sent",
